@@ -6,7 +6,7 @@
     functions ([paths_of], [paths_to], [connected_components], ...) transcribe graph/*.go; panics
     and fuel exhaustion are the result values [Panic]/[Hang], so "returns [Ok]" includes
     termination of every loop and recursion of the model. *)
-From Algo.C14 Require Import Spec ProofsBasic ProofsTrav ProofsReach ProofsBfs ProofsScc ProofsCC ProofsSpt ProofsTopo ProofsCycle ProofsOrders ProofsMsf1 ProofsMsf2 ProofsDijkstra ProofsKosaraju.
+From Algo.C14 Require Import Spec ProofsBasic ProofsTrav ProofsReach ProofsBfs ProofsScc ProofsCC ProofsSpt ProofsTopo ProofsCycle ProofsOrders ProofsMsf1 ProofsMsf2 ProofsDijkstra ProofsKosaraju ProofsKosaraju1 ProofsScc2.
 
 (** * The property at full strength *)
 Definition nonneg (es : list edge) : Prop := forall e, In e es -> (0 <= e_w e)%Z.
@@ -126,45 +126,23 @@ Theorem C14_check_cc_sound :
     forall v w, v < n -> w < n -> (getn ids v = getn ids w <-> reach (mk_graph false n es) v w).
 Proof. exact check_cc_sound. Qed.
 
-(** Clause 3 (Kosaraju), partial: whenever the ids computed by the algorithm pass the checker
-    they are correct. Missing: that Kosaraju's output always passes (checked on every generated
-    graph by the extracted checker instead). *)
-Theorem C14_scc_partial :
-  forall n es c,
+(** Clause 3 of [C14_full], fully proved: StronglyConnectedComponents (Kosaraju as coded: DFS
+    orders of the reversed graph, then DFS passes over its reverse post-order) terminates and two
+    vertices get the same id iff they are mutually reachable; ids are below the component count.
+    (First pass: the reverse post-order puts, before every x, a component member of every y that
+    reaches x in the reversed graph without being reached by it -- invariant over the recursive
+    DFS with its stack; second pass: each DFS tree is exactly one component.) *)
+Theorem C14_scc :
+  forall n es,
     let g := mk_graph true n es in
-    strongly_connected_components g = Ok c -> check_scc g (snd c) = true ->
-    forall v w, v < n -> w < n ->
-      (getn (snd c) v = getn (snd c) w <-> mutually_reachable g v w).
-Proof.
-  intros n es c g _ H v w Hv Hw.
-  destruct (check_scc_sound g (snd c) (wf_mk_graph true n es) H) as [_ K].
-  unfold g in K. rewrite mk_graph_n in K. now apply K.
-Qed.
-
-(** Clause 3 (Kosaraju), second pass proved, conditional on a property of the first pass.
-    The ids computed by the DFS passes over [order] characterise mutual reachability (and the DFS
-    passes terminate) whenever [order] lists every vertex and, for every root r and every w that r
-    reaches but that does not reach r, some vertex of w's component comes before r.  Missing for
-    the unconditional theorem: that the reverse post-order of the reversed graph has this property
-    (plan: invariant over the recursive DFS with its stack -- successors of finished vertices are
-    finished or gray; a gray vertex reached from a finished one through finished vertices reaches it
-    back; every visited y that reaches a finished x without being reached by it has a component
-    member that is gray or finished later). *)
-Theorem C14_kosaraju_second_pass_partial :
-  forall n es order,
-    let g := mk_graph true n es in
-    (forall v, In v order -> v < n) -> (forall v, v < n -> In v order) ->
-    (forall l1 r l2, order = l1 ++ r :: l2 ->
-       forall w, reach g r w -> ~ reach g w r ->
-                 exists w', In w' l1 /\ reach g w w' /\ reach g w' w) ->
-    exists c, comps_over g order = Ok c /\ length (snd c) = n /\
+    exists c, strongly_connected_components g = Ok c /\ length (snd c) = n /\
       forall v w, v < n -> w < n ->
         getn (snd c) v < fst c /\
         (getn (snd c) v = getn (snd c) w <-> mutually_reachable g v w).
 Proof.
-  intros n es order g H1 H2 H3.
-  pose proof (second_pass_correct g (wf_mk_graph true n es) order) as K.
-  unfold g in *. rewrite mk_graph_n in K. apply K; auto.
+  intros n es g.
+  pose proof (scc_correct g (wf_mk_graph true n es) (mk_graph_dir true n es)) as H.
+  unfold g in *. rewrite mk_graph_n in H. exact H.
 Qed.
 
 (** Clause 4 of [C14_full], fully proved: DirectedCycle terminates (recursion, cycle
@@ -304,8 +282,7 @@ Print Assumptions C14_paths_visited.
 Print Assumptions C14_connected_components.
 Print Assumptions C14_check_scc_sound.
 Print Assumptions C14_check_cc_sound.
-Print Assumptions C14_scc_partial.
-Print Assumptions C14_kosaraju_second_pass_partial.
+Print Assumptions C14_scc.
 Print Assumptions C14_directed_cycle.
 Print Assumptions C14_topological_order_acyclic.
 Print Assumptions C14_topological.
